@@ -196,11 +196,43 @@ impl Oracle for C09Oracle {
             }
             _ => return,
         };
-        if !m.matched || !is_alloc(m.msgtype) || m.clock_edge {
+        if !m.matched || !is_alloc(m.msgtype) {
             return;
         }
         // a REQUEST that is not for us is not "served"
         if matches!(m.result, Err(ErrKind::OtherServer)) {
+            return;
+        }
+        if m.clock_edge {
+            // Some row is within a second of the clock, so "expired" and "unexpired" are both
+            // defensible for it.  Judge only what holds under either reading: a refusal for lack
+            // of addresses needs every pool address to be held by *another* client whose lease
+            // may still be running.  An address whose only row is the asker's own (running: it
+            // keeps it; lapsed: nobody holds it) is never a reason to refuse.
+            if matches!(m.result, Err(ErrKind::NoAddress) | Err(ErrKind::AddressInUse)) {
+                out.class("refusal-in-the-second-a-lease-expires");
+                out.nontrivial = true;
+                let w0 = m.wall_before as i64;
+                for x in &m.pool_addrs {
+                    let blocked = m
+                        .before
+                        .iter()
+                        .any(|r| r.ip == *x && r.client != m.identity && (r.expire as i64) >= w0 - 1);
+                    if !blocked {
+                        out.fail(
+                            "C09:refused-though-free-at-expiry-instant",
+                            format!(
+                                "client {:02x?} refused in the second a lease expires although no other client holds {} (rows: {:?}, now {})",
+                                m.identity,
+                                x,
+                                m.before.iter().filter(|r| r.ip == *x).collect::<Vec<_>>(),
+                                w0
+                            ),
+                        );
+                        return;
+                    }
+                }
+            }
             return;
         }
         let now = m.wall_before as i64;
@@ -1177,6 +1209,7 @@ pub fn profile_for(id: &str, tier: Tier, file_backed: bool) -> Profile {
         }
         "C09" => {
             p.w_swap = 10;
+            p.w_edge = 8;
         }
         "C18" => {
             p.w_reopen = 12;
